@@ -229,8 +229,16 @@ impl Game {
         }
     }
 
-    /// All per-state oracles on the real code.
+    /// All per-state oracles on the real code.  A panic of the code under test inside an oracle is
+    /// itself a C19 failure with this game as replay (and never takes the harness down).
     pub fn check_state(&self, rep: &mut Report) {
+        let before = rep.fails.len();
+        if guard(|| self.check_state_inner(rep)).is_none() && rep.fails.len() == before {
+            rep.fail("C19", "query-panics", self, "a public query panicked while the oracles were evaluated".to_string());
+        }
+    }
+
+    fn check_state_inner(&self, rep: &mut Report) {
         let s = &self.state;
         let pb = s.piece_board().clone();
         let w = words(&pb);
@@ -242,7 +250,9 @@ impl Game {
         rep.eval("C19");
         let obs = observe(s);
         if obs.contains("PANIC") || obs.contains('!') {
-            rep.fail("C19", "query-panics", self, obs.chars().take(300).collect());
+            let which: Vec<&str> = obs.split(' ').filter(|f| f.contains("PANIC") || (f.starts_with("at=") && f.contains('!'))).map(|f| f.split('=').next().unwrap_or("")).collect();
+            rep.fail("C19", "query-panics", self, format!("panicking observations: {:?}", which));
+            return;
         }
         if s.is_play_phase() && (s.current_step() > 0) {
             rep.nontriv("C19", skey);
@@ -315,6 +325,15 @@ impl Game {
         let va = s.valid_actions();
         let vanr = s.valid_actions_no_rep();
         let term = s.is_terminal();
+        if let Some(bad) = vanr.iter().chain(va.iter()).find(|a| matches!(a, Action::Move(q, _) if q.index() >= 64)) {
+            rep.fail("C01", "step-from-a-square-off-the-board-offered", self, enc_action(bad));
+            let printable = guard(|| format!("{}", bad)).is_some();
+            let appliable = guard(|| s.take_action(bad)).is_some();
+            if !printable || !appliable {
+                rep.fail("C19", "offered-action-panics", self, format!("{}: Display {} take_action {}", enc_action(bad), if printable { "ok" } else { "PANIC" }, if appliable { "ok" } else { "PANIC" }));
+            }
+            return;
+        }
 
         // ---- C07 ----------------------------------------------------------------------------
         rep.eval("C07");
